@@ -17,7 +17,8 @@ Prop  (on the implementation's outputs, exact rationals), per factoring step w.r
       diagonal, diagonal preference, one pivot event per column with a consistent reuse flag;
       per solve (factoring or FACTORED step): scaling of B, residual bound w.r.t. the matrix that
       was factored; FACTORED: L, U, perm_c, perm_r, etree, R, C, equed, A byte-identical before and
-      after (hash + array comparison with the last factoring step's output).
+      after (hash + array comparison with the last factoring step's output); after the caller's
+      documented clean-up no library-owned block is left alive.
 Corr  (a) bit mirror of `[sdcz]pivotL` on every pivot event incl. those with `usepr = 1`;
       (b) the history replayed through `Slu.History.stepCall` in `Cx Rat`: on rounding-free steps
           perm_r, L, U and the reuse/abandon decision must equal the implementation's.
@@ -336,6 +337,8 @@ def handle (c : Case) : Res := Id.run do
       let (msF, _) := stepCall ms callF
       if msF.fac.piv ≠ ms.fac.piv ∨ msF.permC ≠ ms.permC then corrMsg := some s!"step {k}: the model's FACTORED step changed its state"
       ms := msF
+  if c.pInt "live_delta" ≠ 0 then
+    return Res.propFalse s!"{c.pInt "live_delta"} block(s) allocated by the library are still alive after the documented clean-up of the history" tags0
   match corrMsg with
   | some msg => return Res.corr msg tags0
   | none => pure ()
